@@ -603,22 +603,22 @@ func propAssumptions(verif, prop string) []string {
 }
 
 type ReplayRecord struct {
-	Property   string `json:"property"`
-	Obligation string `json:"obligation"`
-	Kind       string `json:"kind"`
-	Clause     string `json:"clause"`
-	Function   string `json:"function"`
-	Position   string `json:"position"`
-	Result     string `json:"solver_result"`
-	Solver     string `json:"solver"`
-	Output     string `json:"solver_output"`
-	Error      string `json:"generation_error,omitempty"`
+	Property   string            `json:"property"`
+	Obligation string            `json:"obligation"`
+	Kind       string            `json:"kind"`
+	Clause     string            `json:"clause"`
+	Function   string            `json:"function"`
+	Position   string            `json:"position"`
+	Result     string            `json:"solver_result"`
+	Solver     string            `json:"solver"`
+	Output     string            `json:"solver_output"`
+	Error      string            `json:"generation_error,omitempty"`
 	Inputs     map[string]string `json:"model_inputs,omitempty"`
-	TestSource string `json:"replay_test,omitempty"`
-	ReplayCmd  string `json:"replay_cmd,omitempty"`
-	Reproduced bool   `json:"reproduced"`
-	Observed   string `json:"observed,omitempty"`
-	Path       string `json:"-"`
+	TestSource string            `json:"replay_test,omitempty"`
+	ReplayCmd  string            `json:"replay_cmd,omitempty"`
+	Reproduced bool              `json:"reproduced"`
+	Observed   string            `json:"observed,omitempty"`
+	Path       string            `json:"-"`
 }
 
 func writeReplay(eng *Engine, verif, prop string, o *Oblig) *ReplayRecord {
@@ -636,7 +636,6 @@ func writeReplay(eng *Engine, verif, prop string, o *Oblig) *ReplayRecord {
 	os.WriteFile(r.Path, append(data, '\n'), 0o644)
 	return r
 }
-
 
 // runAudit: differential tests of the executable readings of assumed library contracts (bounded; trusted base only).
 func runAudit(verif string, seed int) map[string]interface{} {
@@ -666,15 +665,15 @@ func runAudit(verif string, seed int) map[string]interface{} {
 	return res
 }
 
-
 type standinSpec struct {
-	Property      string `json:"property"`
-	Pkg           string `json:"pkg"`
-	File          string `json:"file"`
-	Test          string `json:"test"`
-	BoundQuick    int    `json:"bound_quick"`
-	BoundThorough int    `json:"bound_thorough"`
-	What          string `json:"what"`
+	Property      string   `json:"property"`
+	AlsoFor       []string `json:"also_for"` // other properties whose argument rests on the same function
+	Pkg           string   `json:"pkg"`
+	File          string   `json:"file"`
+	Test          string   `json:"test"`
+	BoundQuick    int      `json:"bound_quick"`
+	BoundThorough int      `json:"bound_thorough"`
+	What          string   `json:"what"`
 }
 
 var boundedRe = regexp.MustCompile(`GCV-BOUNDED: evaluations=(\d+) mismatches=(\d+) bound=(\d+) first=(.*)`)
@@ -689,7 +688,7 @@ func runStandins(eng *Engine, repo, verif, prop string, thorough bool) []map[str
 	json.Unmarshal(data, &specs)
 	var out []map[string]interface{}
 	for _, sp := range specs {
-		if sp.Property != prop {
+		if sp.Property != prop && !contains(sp.AlsoFor, prop) {
 			continue
 		}
 		bound := sp.BoundQuick
